@@ -154,7 +154,17 @@ ADD7 = {
  "C18": " Round 7: EV-NAMES (a handle is labelled with the name it was asked for on every path that hands it out); CLK-COMMITSTAMP on every path of Commit; CS-ORDER, ATTEMPT-ONCE.",
  "C19": " Round 7: ADDR-PURE - no function that computes an address handed to a resources constructor in the systems' bootstrap code touches a package-level variable the program changes at run time.",
 }
-for d in (ADD, ADD3, ADD4, ADD5, ADD7):
+# round 8
+_CTX8 = " Round 8: the protocol tables freeze the context of every row (rules/spec_context.txt): an atom of the specification's path condition that is neither in the row's condition nor in that context is new, and the tabled effect must not depend on it - a guard added around a tabled decision, consistently in specification and Go, is reported."
+ADD8 = {
+ "C01": " Round 8: LS-2PL (the end of a section touches a shared cell only while this handle holds the lock).",
+ "C02": " Round 8: the operator rules of C03 (OVERRIDE-DIR, OP-DECISION, OP-RELATION, DIVMOD-FLOOR, SEQ-BOUNDS, INDEX-BASE, FUNC-DECISION, SELECT-DECISION, ARITH-CHECKED) are decided under this property too: the values a step assigns are computed by the operator library.",
+ "C06": " Round 8: MB-LEN asks-the-mailbox (the length view returns what mailbox.length() computed for this very read).",
+ "C07": " Round 8: LS-2PL cell-use-only-while-holding for Abort / Commit.",
+ "C08": _CTX8, "C09": _CTX8 + " FRONTEND-ANSWER (see C14).", "C15": _CTX8, "C16": _CTX8,
+ "C14": _CTX8 + " FRONTEND-ANSWER: an API call of the client front end reports success only from the select arm that received this call's answer; the abandoning (timeout) arm reports an error.",
+}
+for d in (ADD, ADD3, ADD4, ADD5, ADD7, ADD8):
     for k, v in d.items():
         t = CLAIMED[k]
         CLAIMED[k] = (t[0], t[1] + v, t[2], t[3])
